@@ -68,11 +68,19 @@ def main():
                 continue
             for p in props:
                 t0 = time.time()
-                c = sh([os.path.join(VERIF, "check"), p, "--tier", tier], env=env, cwd=VERIF)
+                try:
+                    c = sh([os.path.join(VERIF, "check"), p, "--tier", tier], env=env, cwd=VERIF, timeout=3600)
+                except subprocess.TimeoutExpired as ex:
+                    subprocess.run(["pkill", "-9", "-f", "check %s --tier" % p], check=False)
+                    c = subprocess.CompletedProcess([], 3, stdout="TIMEOUT after 3600s\n" + (ex.stdout or ""))
                 viol = [ln for ln in c.stdout.splitlines() if ln.startswith("VIOLATION")]
                 status = "DETECTED" if c.returncode == 1 and viol else ("MISSED" if c.returncode == 0 else "EXIT-%d" % c.returncode)
                 tail = [ln for ln in c.stdout.splitlines() if ln.startswith("  clause")][:2]
                 results.append((sid, p, status, "%.0fs %s" % (time.time() - t0, " | ".join(t[:160] for t in tail))))
+                print("%s %s %s %s" % results[-1], flush=True)
+                open(os.path.join(d, "last_run.txt"), "w").write("%s %s %s\n%s\n" % (
+                    p, tier, status, "\n".join(ln for ln in c.stdout.splitlines()
+                                               if ln.startswith(("VIOLATION", "  clause", "[", "KNOWN", "MACHINERY")))[:3000]))
         finally:
             if in_repo:
                 sh(["git", "-C", "/repo", "checkout", "--", "."])
